@@ -24,7 +24,7 @@ pub struct Known {
 
 impl Known {
     pub fn load(prop: &str) -> Known {
-        let path = std::path::Path::new(crate::VERIF_ROOT).join("known-findings.txt");
+        let path = crate::verif_root().join("known-findings.txt");
         let text = std::fs::read_to_string(path).unwrap_or_default();
         let mut open = Vec::new();
         for line in text.lines() {
@@ -59,7 +59,7 @@ impl Known {
                 open.push(KnownEntry {
                     prop: p,
                     key,
-                    replay: std::path::Path::new(crate::VERIF_ROOT).join(replay),
+                    replay: crate::verif_root().join(replay),
                     text: words.join(" "),
                 });
             }
